@@ -58,7 +58,7 @@ CHECKS['C01'] = ('exploration',
    'Points of space are sampled (6k quick / 40k thorough probes per shape); blended combinators are outside the enumerated domain of C01; Offset/Shell only over operands whose value bounds the box distance.',
    'DESIGN.md 2/C01')
 CHECKS['C02'] = ('exploration',
-   'reference-interpreter differential monitor: real composed shapes vs an independent evaluation of the same expression tree (own matrix inverse, folds, clamps) calling real code only on leaves; law monitors for blends, cache histories, voxel lattices and a probe-leaf check of the slicing frame',
+   'reference-interpreter differential monitor: real composed shapes vs an independent evaluation of the same expression tree (own matrix inverse, folds, clamps) calling real code only on leaves; law monitors for blends (fold of the installed function over operand values, nested / late / wide unions), argument-aliasing histories (caller-owned slices reused after construction), construction-order equivalence (blend installed before vs after wrapping), cache histories, voxel lattices and a probe-leaf check of the slicing frame',
    'Random trees over every combinator are evaluated at hostile points (symmetry planes, sector boundaries +-delta, rotation axis, far field) and compared with the reference semantics; blend laws (<= min, symmetric, PolyMin in [min-k/4, min], PolyMax mirror) on the functions and on root-blended real shapes; cache wrappers under query histories with repeats; voxel wrappers at lattice corners and inside cells; Slice2D frame is an orthonormal right-handed frame of the plane fixing a.',
    'Depth <= 3 quick / <= 5 thorough; tolerance 1e-9*(size+|p|)+1e-11*|value|; twist direction taken as implemented (sign flips are still detected).',
    'DESIGN.md 2/C02')
